@@ -244,6 +244,16 @@ func (o *Oracle) onVoteRequestSent(inc *Inc, m *Msg) {
 		is.healSet = false // the leader has gone for reasons of its own: elections are legitimate now
 		return
 	}
+	// "the healthy leader": a fault injected after the heal that cuts the leader off from one of its voters
+	// gives that voter a reason of its own to look for another leader (correction 41: seed 4, profile C14, run
+	// 1320: the leader was isolated 250 ms before a rejoined server won the followers' pre-votes)
+	_, _, lcfg, _ := l.inc.r.VerifConfigurations()
+	for _, id := range voters(lcfg) {
+		if p := w.nodeByID(id); p != nil && p != l && (w.net.blocked[l.idx][p.idx] || w.net.blocked[p.idx][l.idx]) {
+			is.healSet = false
+			return
+		}
+	}
 	if req, ok := m.Req.(*raft.RequestVoteRequest); ok && req.Term > is.healT && !req.LeadershipTransfer {
 		w.stats.probe("rejoin_after_isolation_checked")
 		w.violate("C14", "C14/rejoin-disrupted-leader", "s%d rejoined after isolation with a log that is not ahead and asks for votes in term %d while s%d is a healthy leader of term %d",
@@ -475,9 +485,17 @@ func (o *Oracle) checkConvergence() {
 		return
 	}
 	cv.missing = missing
-	if elapsed > cv.bound && o.tainted == "" {
+	bound := cv.bound
+	if strings.HasPrefix(missing, "member-lagging") {
+		// a leader that could not reach a follower for a long time retries it with a back-off that doubles up
+		// to about ten seconds (replication.go: failureWait 10 ms, maxFailureScale 12) and sleeps it out before it
+		// looks at the follower again: a member that came back just before the faults stopped is legitimately
+		// left alone that long (correction 42: seed 5, profile C12, run 17)
+		bound += 11 * time.Second
+	}
+	if elapsed > bound && o.tainted == "" {
 		cv.done = true
-		v := w.violate("C12", "C12/no-convergence", "%v after all faults stopped (bound %v): %s", elapsed.Round(time.Millisecond), cv.bound, missing)
+		v := w.violate("C12", "C12/no-convergence", "%v after all faults stopped (bound %v): %s", elapsed.Round(time.Millisecond), bound, missing)
 		v.Facts["missing"] = strings.SplitN(missing, ":", 2)[0]
 		// a server that holds an uncommitted configuration in which it is no longer a voter
 		// (it demoted or removed itself while cut off) neither campaigns nor grants its vote
